@@ -1,12 +1,16 @@
-// C10 harness: string builtins. Correspondence (implementation vs extracted
-// Coq model) and search (implementation vs the property's defining equations,
-// computed independently here with math/big).
+// C10 harness: string, regex and int() builtins. Correspondence (implementation vs extracted
+// Coq model) and search (implementation vs the property's defining equations, computed
+// independently here with math/big and with Go's regexp + Longest() used directly).
 package main
 
 import (
+	"encoding/json"
 	"fmt"
 	"math"
 	"math/big"
+	"os"
+	"regexp"
+	"strconv"
 	"strings"
 	"unicode/utf8"
 
@@ -16,17 +20,39 @@ import (
 )
 
 type kase struct {
-	op    string // substr substrlen int index length
+	op    string // substr substrlen int index length | match sub gsub split upper lower fmt
 	chars bool
-	s, t  string
+	s, t  string // t: index needle / sub+gsub replacement / split separator / fmt format
 	x, y  float64
+	re    *hx.Re // match, sub, gsub: the regex; split: the AST of the separator when it is used as a regex
+	lit   bool   // split: separator written as a regex literal /.../ in the program text (sepIsRegex)
+	warm  int    // number of distinct dynamic regexes (and formats) the interpreter has seen before this case
 }
 
-func (k kase) line() string {
-	c := "0"
-	if k.chars {
-		c = "1"
+func b01(b bool) string {
+	if b {
+		return "1"
 	}
+	return "0"
+}
+
+func (k kase) reWire() string {
+	if k.re == nil {
+		return "E"
+	}
+	return k.re.Wire()
+}
+
+func (k kase) reSrc() string {
+	if k.re == nil {
+		return ""
+	}
+	return k.re.Render()
+}
+
+// line is the request sent to the extracted model ("" = no model for this op).
+func (k kase) line() string {
+	c := b01(k.chars)
 	switch k.op {
 	case "substr":
 		return fmt.Sprintf("substr %s %s %s", c, hx.HexS(k.s), hx.FBits(k.x))
@@ -38,8 +64,47 @@ func (k kase) line() string {
 		return fmt.Sprintf("index %s %s %s", c, hx.HexS(k.s), hx.HexS(k.t))
 	case "length":
 		return fmt.Sprintf("length %s %s", c, hx.HexS(k.s))
+	case "match":
+		return fmt.Sprintf("match %s %s %s", c, k.reWire(), hx.HexS(k.s))
+	case "sub", "gsub":
+		return fmt.Sprintf("sub %s %s %s %s", b01(k.op == "gsub"), k.reWire(), hx.HexS(k.t), hx.HexS(k.s))
+	case "split":
+		return fmt.Sprintf("split %s %s %s %s", b01(k.lit), hx.HexS(k.t), k.reWire(), hx.HexS(k.s))
+	case "upper", "lower":
+		return fmt.Sprintf("%s %s", k.op, hx.HexS(k.s))
+	case "fmt":
+		return ""
 	}
 	panic(k.op)
+}
+
+// dynRegex: the string this case hands to interp.compileRegex ("" if none).
+func (k kase) dynRegex() string {
+	switch k.op {
+	case "match", "sub", "gsub":
+		return k.reSrc()
+	case "split":
+		if splitRegime(k) == "regex" {
+			return k.t
+		}
+	case "fmt":
+		return "fmt:" + k.t
+	}
+	return ""
+}
+
+func splitRegime(k kase) string {
+	switch {
+	case !k.lit && k.t == " ":
+		return "space"
+	case k.s == "":
+		return "empty-subject"
+	case !k.lit && k.t == "":
+		return "empty-sep"
+	case !k.lit && utf8.RuneCountInString(k.t) <= 1:
+		return "single"
+	}
+	return "regex"
 }
 
 var strPool = []string{"", "a", "hello", "hello world", "héllo", "日本語テキスト", "a\xffb", "\xff\xfe", "ab\xc3", "\xe2\x82", "€uro€", "😀x😀", "aaa", "abcabc", "\x00a\x00", "é"}
@@ -76,9 +141,161 @@ func randNum(r *hx.Rand, n int) float64 {
 	}
 }
 
+// ---- regex material ----
+
+func chr(c rune) *hx.Re { return &hx.Re{Kind: "chr", R: c} }
+func cat(xs ...*hx.Re) *hx.Re {
+	r := xs[0]
+	for _, x := range xs[1:] {
+		r = &hx.Re{Kind: "cat", A: r, B: x}
+	}
+	return r
+}
+func alt(xs ...*hx.Re) *hx.Re {
+	r := xs[len(xs)-1]
+	for i := len(xs) - 2; i >= 0; i-- {
+		r = &hx.Re{Kind: "alt", A: xs[i], B: r}
+	}
+	return r
+}
+func lits(s string) *hx.Re {
+	var xs []*hx.Re
+	for _, c := range s {
+		xs = append(xs, chr(c))
+	}
+	return cat(xs...)
+}
+func un(kind string, a *hx.Re) *hx.Re { return &hx.Re{Kind: kind, A: a} }
+func leaf(kind string) *hx.Re         { return &hx.Re{Kind: kind} }
+func cls(neg bool, rs ...[2]rune) *hx.Re {
+	return &hx.Re{Kind: "cls", Neg: neg, Ranges: rs}
+}
+
+// alternations whose first alternative is a prefix of a later one come first: leftmost-first
+// (Go's default without Longest) and leftmost-longest differ exactly on these.
+var rePool = []*hx.Re{
+	alt(chr('a'), lits("ab"), lits("abc")),
+	alt(lits("ab"), lits("abc"), chr('a')),
+	cat(alt(chr('a'), lits("ab")), alt(chr('c'), lits("bcd"))),
+	alt(chr('l'), lits("ll"), lits("llo")),
+	alt(leaf("eps"), chr('a')),
+	alt(chr('é'), lits("él")),
+	un("star", alt(chr('a'), lits("ab"))),
+	alt(chr('x'), un("plus", chr('x'))),
+	alt(chr(' '), lits(" w")),
+	un("star", chr('a')),
+	un("star", chr('x')),
+	un("plus", chr('b')),
+	un("opt", chr('a')),
+	leaf("eps"),
+	leaf("bol"),
+	leaf("eol"),
+	leaf("any"),
+	cat(leaf("bol"), leaf("eol")),
+	cls(true, [2]rune{'a', 'a'}),
+	cls(false, [2]rune{'a', 'c'}),
+	chr('é'),
+	chr('€'),
+	chr('l'),
+	chr('.'),
+	lits("lo"),
+	lits("abc"),
+	cat(chr('a'), un("star", leaf("any")), chr('c')),
+	un("star", alt(chr('a'), chr('b'))),
+	cat(leaf("bol"), chr('a')),
+	cat(chr('o'), leaf("eol")),
+	un("plus", leaf("any")),
+	alt(leaf("bol"), chr('b')),
+	un("star", cls(true, [2]rune{' ', ' '})),
+	cat(chr(','), un("star", chr(' '))),
+	un("plus", cls(false, [2]rune{' ', ' '}, [2]rune{',', ','})),
+	chr('😀'),
+	leaf("none"),
+}
+
+var reSubj = []string{"", "a", "ab", "abc", "abcd", "xabcabx", "aab", "hello", "hello world", "llo", "héllo él", "a,b,,c", "a, b,  c", "  lead and trail ",
+	"aaa", "baaac", "xxx", "é€a", "€uro€", "😀x😀", "a\xffb", "\xff\xfe", "ab\xc3", "\xe2\x82", "abc\n abc", "x.*x", "abab", "\xc3\xa9\xc3", "日本語"}
+
+var replPool = []string{"&", `\&`, `\\`, `\\&`, `[&]`, "x", "", `\`, `a\b`, "&&", `\\\&`, "é&", `&\&&`, `\\\\`, "-"}
+
+var sepPool = []string{" ", ",", "a", "", "é", "\xff", ".", "|", "l", "\n", "€", "b", "\xc3", "*"}
+
+func hasAlt(r *hx.Re) bool {
+	if r == nil {
+		return false
+	}
+	return r.Kind == "alt" || r.Kind == "opt" || hasAlt(r.A) || hasAlt(r.B)
+}
+
+func randRe(r *hx.Rand) *hx.Re {
+	if r.Intn(4) == 0 {
+		return rePool[r.Intn(len(rePool))]
+	}
+	return hx.RandRe(r, r.Intn(4), r.Intn(3) == 0)
+}
+
+func randSubj(r *hx.Rand) string {
+	switch r.Intn(4) {
+	case 0:
+		return r.Pick(reSubj)
+	case 1:
+		return r.Pick(reSubj) + r.Pick(reSubj)
+	}
+	alpha := []string{"a", "b", "c", "x", "l", " ", ",", "\n", "é", "€", "😀", ".", "*", "\xff", "\x80", "\xc3", "a", "b"}
+	if r.Intn(3) == 0 {
+		alpha = alpha[:8] // ASCII only
+	}
+	n := r.Intn(10)
+	var sb strings.Builder
+	for i := 0; i < n; i++ {
+		sb.WriteString(r.Pick(alpha))
+	}
+	return sb.String()
+}
+
+func randRepl(r *hx.Rand) string {
+	if r.Bool() {
+		return r.Pick(replPool)
+	}
+	tok := []string{"&", `\\`, `\&`, `\`, "a", "é", "-"}
+	n := r.Intn(5)
+	var sb strings.Builder
+	for i := 0; i < n; i++ {
+		sb.WriteString(r.Pick(tok))
+	}
+	return sb.String()
+}
+
 func genCases(o hx.Opts, r *hx.Rand) []kase {
 	var ks []kase
-	// systematic part: every pool string x every hostile number (x a few lengths)
+	// ---- systematic part, regex builtins first (so that the first 100 distinct regexes of
+	// the session, the ones that get cached, are the interesting ones)
+	for i, re := range rePool {
+		for j, s := range reSubj {
+			for _, c := range []bool{false, true} {
+				ks = append(ks, kase{op: "match", chars: c, s: s, re: re})
+			}
+			repl := replPool[(i+j)%len(replPool)]
+			ks = append(ks, kase{op: "gsub", s: s, re: re, t: "&"}, kase{op: "gsub", s: s, re: re, t: repl},
+				kase{op: "sub", s: s, re: re, t: repl})
+			if (i+j)%3 == 0 {
+				ks = append(ks, kase{op: "split", s: s, re: re, t: re.Render()})
+			}
+			if (i+j)%7 == 0 && re.Kind != "none" {
+				ks = append(ks, kase{op: "split", s: s, re: re, t: re.Render(), lit: true})
+			}
+		}
+	}
+	for _, s := range reSubj {
+		for _, sep := range sepPool {
+			ks = append(ks, kase{op: "split", s: s, t: sep})
+		}
+		for _, repl := range replPool {
+			ks = append(ks, kase{op: "gsub", s: s, re: rePool[0], t: repl}, kase{op: "sub", s: s, re: chr('a'), t: repl})
+		}
+		ks = append(ks, kase{op: "upper", s: s}, kase{op: "lower", s: strings.ToUpper(s)})
+	}
+	// every pool string x every hostile number (x a few lengths)
 	for _, s := range strPool {
 		for _, x := range hostile {
 			for _, c := range []bool{false, true} {
@@ -98,75 +315,142 @@ func genCases(o hx.Opts, r *hx.Rand) []kase {
 	for _, x := range hostile {
 		ks = append(ks, kase{op: "int", x: x}, kase{op: "int", x: -x})
 	}
+	// > maxCachedFormats distinct printf formats, each used with a later one again
+	for i := 0; i < 130; i++ {
+		ks = append(ks, kase{op: "fmt", t: fmt.Sprintf("<%%d|%d>", i), x: float64(i) + 0.5})
+	}
 	n := o.N
 	if n == 0 {
-		n = 6000
+		n = 9000
 		if o.Tier == "thorough" {
-			n = 300000
+			n = 400000
 		}
 	}
 	for i := 0; i < n; i++ {
-		s := randStr(r)
-		nr := utf8.RuneCountInString(s)
-		k := kase{chars: r.Bool(), s: s}
-		switch r.Intn(10) {
+		k := kase{chars: r.Bool()}
+		switch r.Intn(20) {
 		case 0, 1, 2:
-			k.op, k.x = "substr", randNum(r, nr)
+			k.s = randStr(r)
+			k.op, k.x = "substr", randNum(r, utf8.RuneCountInString(k.s))
 		case 3, 4, 5, 6:
+			k.s = randStr(r)
+			nr := utf8.RuneCountInString(k.s)
 			k.op, k.x, k.y = "substrlen", randNum(r, nr), randNum(r, nr)
 		case 7:
 			k.op, k.x = "int", randNum(r, 100)
 		case 8:
-			k.op = "index"
-			if r.Bool() && len(s) > 0 {
-				a := r.Intn(len(s))
-				b := a + r.Intn(len(s)-a+1)
-				k.t = s[a:b]
+			k.op, k.s = "index", randStr(r)
+			if r.Bool() && len(k.s) > 0 {
+				a := r.Intn(len(k.s))
+				b := a + r.Intn(len(k.s)-a+1)
+				k.t = k.s[a:b]
 			} else {
 				k.t = r.Pick(subPool)
 			}
+		case 9:
+			k.op, k.s = "length", randStr(r)
+		case 10, 11, 12:
+			k.op, k.s, k.re = "match", randSubj(r), randRe(r)
+		case 13, 14:
+			k.op, k.s, k.re, k.t = "gsub", randSubj(r), randRe(r), randRepl(r)
+			if r.Intn(4) == 0 {
+				k.t = "&"
+			}
+		case 15, 16:
+			k.op, k.s, k.re, k.t = "sub", randSubj(r), randRe(r), randRepl(r)
+		case 17, 18:
+			k.op, k.s = "split", randSubj(r)
+			if r.Bool() {
+				k.t = r.Pick(sepPool)
+				if k.t != "" && k.t != " " && r.Bool() && len(k.s) > 0 {
+					// make the separator occur
+					k.s = k.s + k.t + r.Pick(reSubj) + k.t
+				}
+			} else {
+				k.re = randRe(r)
+				k.t = k.re.Render()
+				k.lit = r.Intn(4) == 0 && k.re.Kind != "none"
+			}
 		default:
-			k.op = "length"
+			if r.Bool() {
+				k.op, k.s = "upper", randSubj(r)
+			} else {
+				k.op, k.s = "lower", strings.ToUpper(randSubj(r))
+			}
 		}
 		ks = append(ks, k)
 	}
 	return ks
 }
 
-// runImpl evaluates all cases of one mode in a single AWK program through the public API.
-func runImpl(ks []kase, chars bool) ([]string, error) {
-	var idx []int
-	for i, k := range ks {
-		if k.chars == chars {
-			idx = append(idx, i)
-		}
+// ---- running the implementation ----
+
+const awkFuncs = `
+function pr(n, a,    c, k, j, line) {
+  c = 0
+  for (k in a) c++
+  line = "ok " D(n) " " D(c)
+  for (j = 1; j <= n; j++) line = line " " ((j in a) ? j "=" H(a[j]) : j "=missing")
+  print line
+}
+function warmup(n,   w) {
+  for (w = 0; w < n; w++) { match("", "zq" w); sprintf("zq" w "%d", 1) }
+}
+`
+
+// one statement per case: the generic ones dispatch on OP(i), a regex literal needs its own text
+func stmtFor(j int, k kase) string {
+	if k.op == "split" && k.lit {
+		return fmt.Sprintf("  delete a; n = split(S(%d), a, /%s/); pr(n, a)\n", j, k.reSrc())
 	}
-	res := make([]string, len(ks))
-	if len(idx) == 0 {
-		return res, nil
-	}
+	return fmt.Sprintf("  ev(%d)\n", j)
+}
+
+const awkEv = `
+function ev(i,    op, r, t, n, a) {
+  op = OP(i)
+  if (op == "substr") print "ok " H(substr(S(i), X(i)))
+  else if (op == "substrlen") print "ok " H(substr(S(i), X(i), Y(i)))
+  else if (op == "int") print "ok " F(int(X(i)))
+  else if (op == "index") print "ok " D(index(S(i), T(i)))
+  else if (op == "length") print "ok " D(length(S(i)))
+  else if (op == "match") { r = match(S(i), R(i)); print "ok " D(RSTART) " " D(RLENGTH) " " D(r) " " H(substr(S(i), RSTART, RLENGTH)) }
+  else if (op == "sub") { t = S(i); n = sub(R(i), T(i), t); print "ok " D(n) " " H(t) }
+  else if (op == "gsub") { t = S(i); n = gsub(R(i), T(i), t); print "ok " D(n) " " H(t) }
+  else if (op == "split") { delete a; n = split(S(i), a, T(i)); pr(n, a) }
+  else if (op == "upper") print "ok " H(toupper(S(i)))
+  else if (op == "lower") print "ok " H(tolower(S(i)))
+  else if (op == "fmt") print "ok " H(sprintf(T(i), X(i)))
+  else print "badop"
+}
+`
+
+// runSession evaluates the cases, in order, inside ONE interpreter (so the regex cache and the
+// format cache carry over from case to case), after compiling `warm` distinct throw-away
+// regexes and formats. Each case is evaluated `times` times in a row.
+func runSession(ks []kase, chars bool, warm, times int) ([][]string, error) {
 	funcs := map[string]any{
-		"S":  func(i int) string { return ks[idx[i]].s },
-		"T":  func(i int) string { return ks[idx[i]].t },
-		"X":  func(i int) float64 { return ks[idx[i]].x },
-		"Y":  func(i int) float64 { return ks[idx[i]].y },
-		"OP": func(i int) string { return ks[idx[i]].op },
+		"S":  func(i int) string { return ks[i].s },
+		"T":  func(i int) string { return ks[i].t },
+		"R":  func(i int) string { return ks[i].reSrc() },
+		"X":  func(i int) float64 { return ks[i].x },
+		"Y":  func(i int) float64 { return ks[i].y },
+		"OP": func(i int) string { return ks[i].op },
 		"H":  func(s string) string { return hx.HexS(s) },
 		"F":  func(f float64) string { return hx.FCanon(f) },
 		"D":  func(f float64) string { return big.NewFloat(f).Text('f', 0) },
 	}
-	src := `BEGIN {
-  for (i = 0; i < N; i++) {
-    op = OP(i)
-    if (op == "substr") print "ok " H(substr(S(i), X(i)))
-    else if (op == "substrlen") print "ok " H(substr(S(i), X(i), Y(i)))
-    else if (op == "int") print "ok " F(int(X(i)))
-    else if (op == "index") print "ok " D(index(S(i), T(i)))
-    else if (op == "length") print "ok " D(length(S(i)))
-  }
-}`
-	cfg := &interp.Config{Funcs: funcs, Chars: chars, Vars: []string{"N", fmt.Sprint(len(idx))}, Environ: []string{}}
-	rr := hx.RunAwk(src, cfg, &parser.ParserConfig{Funcs: funcs})
+	var sb strings.Builder
+	sb.WriteString(awkFuncs + awkEv + "BEGIN {\n")
+	fmt.Fprintf(&sb, "  warmup(%d)\n", warm)
+	for j, k := range ks {
+		for t := 0; t < times; t++ {
+			sb.WriteString(stmtFor(j, k))
+		}
+	}
+	sb.WriteString("}\n")
+	cfg := &interp.Config{Funcs: funcs, Chars: chars, Environ: []string{}}
+	rr := hx.RunAwk(sb.String(), cfg, &parser.ParserConfig{Funcs: funcs})
 	if rr.Panic != nil {
 		return nil, fmt.Errorf("panic: %v", rr.Panic)
 	}
@@ -174,25 +458,48 @@ func runImpl(ks []kase, chars bool) ([]string, error) {
 		return nil, rr.Err
 	}
 	lines := strings.Split(strings.TrimSuffix(string(rr.Out), "\n"), "\n")
-	if len(lines) != len(idx) {
-		return nil, fmt.Errorf("got %d lines for %d cases", len(lines), len(idx))
+	if len(lines) != len(ks)*times {
+		return nil, fmt.Errorf("got %d lines for %d cases", len(lines), len(ks)*times)
 	}
-	for j, i := range idx {
-		res[i] = lines[j]
+	res := make([][]string, len(ks))
+	for j := range ks {
+		res[j] = lines[j*times : (j+1)*times]
 	}
 	return res, nil
 }
 
-// runOne evaluates a single case in isolation (used when a batch panics, and for replay).
+// runOne evaluates a single case twice in a fresh interpreter that has first seen k.warm other
+// regexes/formats (used when a batch fails, for the mode-agreement oracle and for replay).
 func runOne(k kase) string {
-	r, err := runImpl([]kase{k}, k.chars)
+	r, err := runSession([]kase{k}, k.chars, k.warm, 2)
 	if err != nil {
 		if strings.HasPrefix(err.Error(), "panic") {
 			return "panic"
 		}
 		return "error " + err.Error()
 	}
-	return r[0]
+	if r[0][0] != r[0][1] {
+		return "unstable: first evaluation " + r[0][0] + " / second evaluation " + r[0][1]
+	}
+	return r[0][0]
+}
+
+// corrView: the part of the implementation's line that the model predicts.
+func corrView(k kase, impl string) string {
+	f := strings.Fields(impl)
+	switch k.op {
+	case "match":
+		if len(f) == 5 && f[0] == "ok" {
+			return strings.Join(f[:3], " ") // ok RSTART RLENGTH
+		}
+	case "sub", "gsub":
+	case "split":
+		// ok n c k=v ...  ->  model: ok n k=v ... ; the key count c must equal n (checked by the oracle)
+		if len(f) >= 3 && f[0] == "ok" {
+			return strings.Join(append([]string{"ok", f[1]}, f[3:]...), " ")
+		}
+	}
+	return impl
 }
 
 // ---- independent specification (the property's defining equations) ----
@@ -272,8 +579,72 @@ func specSubstr(s string, chars bool, m float64, hasN bool, n float64) (string, 
 	return strings.Join(rest, ""), true
 }
 
+var goReCache = map[string]*regexp.Regexp{}
+
+// goRe: the reference engine: Go's regexp on the same source text goawk compiles, with
+// leftmost-longest semantics switched on here, in the harness.
+func goRe(src string) (*regexp.Regexp, error) {
+	if re, ok := goReCache[src]; ok {
+		return re, nil
+	}
+	re, err := regexp.Compile("(?s:" + src + ")")
+	if err != nil {
+		return nil, err
+	}
+	re.Longest()
+	goReCache[src] = re
+	return re, nil
+}
+
+// specExpand: & is the matched text, \& a literal ampersand, \\ a backslash; any other
+// backslash sequence (and a trailing backslash) stands for itself.
+func specExpand(repl, m string) string {
+	var sb strings.Builder
+	for i := 0; i < len(repl); i++ {
+		c := repl[i]
+		switch {
+		case c == '&':
+			sb.WriteString(m)
+		case c == '\\' && i+1 < len(repl) && (repl[i+1] == '&' || repl[i+1] == '\\'):
+			sb.WriteByte(repl[i+1])
+			i++
+		default:
+			sb.WriteByte(c)
+		}
+	}
+	return sb.String()
+}
+
+func subjClass(s string) string {
+	ascii := true
+	for i := 0; i < len(s); i++ {
+		if s[i] >= 0x80 {
+			ascii = false
+		}
+	}
+	switch {
+	case s == "":
+		return "empty"
+	case ascii:
+		return "ascii"
+	case utf8.ValidString(s):
+		return "utf8"
+	}
+	return "invalid-utf8"
+}
+
 func classify(k kase) string {
 	big63 := func(f float64) bool { return f >= 9223372036854775808.0 || f <= -9223372036854775808.0 }
+	reTag := func() string {
+		t := ""
+		if hasAlt(k.re) {
+			t += "-alt"
+		}
+		if k.re != nil && k.re.CanBeEmpty() {
+			t += "-emptyre"
+		}
+		return t
+	}
 	switch k.op {
 	case "substr", "substrlen":
 		c := k.op
@@ -289,6 +660,28 @@ func classify(k kase) string {
 			return "int-arg-beyond-int64"
 		}
 		return "int"
+	case "match":
+		c := "match" + reTag() + "-" + subjClass(k.s)
+		if k.chars {
+			c += "-chars"
+		}
+		return c
+	case "sub", "gsub":
+		return k.op + reTag() + "-" + subjClass(k.s)
+	case "split":
+		reg := splitRegime(k)
+		c := "split-" + reg
+		if reg == "regex" {
+			c += reTag()
+			if k.lit {
+				c += "-literal"
+			}
+		}
+		return c + "-" + subjClass(k.s)
+	case "upper", "lower":
+		return k.op + "-" + subjClass(k.s)
+	case "fmt":
+		return "fmt"
 	}
 	if k.chars {
 		return k.op + "-chars"
@@ -296,17 +689,36 @@ func classify(k kase) string {
 	return k.op
 }
 
-func oracle(k kase, impl string, rep *hx.Report) {
-	fail := func(oracleName, want string) {
-		rep.Fail(hx.Failure{Class: classify(k), Oracle: oracleName, Detail: map[string]any{
-			"op": k.op, "chars": k.chars, "s_hex": hx.HexS(k.s), "t_hex": hx.HexS(k.t),
-			"x_bits": hx.FBits(k.x), "y_bits": hx.FBits(k.y), "x": fmt.Sprint(k.x), "y": fmt.Sprint(k.y),
-			"want": want, "got": impl, "model_line": k.line()}})
-	}
+func detail(k kase, want, got string) map[string]any {
+	return map[string]any{
+		"op": k.op, "chars": k.chars, "s_hex": hx.HexS(k.s), "t_hex": hx.HexS(k.t),
+		"x_bits": hx.FBits(k.x), "y_bits": hx.FBits(k.y), "x": fmt.Sprint(k.x), "y": fmt.Sprint(k.y),
+		"regex": k.reSrc(), "regex_wire": k.reWire(), "has_regex": k.re != nil, "regex_literal": k.lit,
+		"warm": k.warm, "s": strconv.Quote(k.s), "t": strconv.Quote(k.t),
+		"session": fmt.Sprintf("fresh interpreter (chars=%v); first %d distinct dynamic regexes \"zq<i>\" and formats are compiled, then the case is evaluated twice", k.chars, k.warm),
+		"want": want, "got": got, "model_line": k.line()}
+}
+
+// oracle evaluates the property's equations on the implementation's answer; it returns the
+// failures (oracle name, expected) without side effects so that replay can reuse it.
+type ofail struct{ oracle, want string }
+
+func oracle(k kase, impl string) (fails []ofail) {
+	fail := func(name, want string) { fails = append(fails, ofail{name, want}) }
 	if impl == "panic" {
 		fail("no-panic", "a value")
 		return
 	}
+	if strings.HasPrefix(impl, "unstable") {
+		fail("same call, same interpreter, same result", "two equal answers")
+		return
+	}
+	f := strings.Fields(impl)
+	if len(f) == 0 || f[0] != "ok" {
+		fail("builtin returns a value", "ok ...")
+		return
+	}
+	unhex := func(h string) string { return string(hx.UnHex(h)) }
 	switch k.op {
 	case "substr", "substrlen":
 		want, ok := specSubstr(k.s, k.chars, k.x, k.op == "substrlen", k.y)
@@ -317,7 +729,7 @@ func oracle(k kase, impl string, rep *hx.Report) {
 			fail("substr(s,m,n) = next n units from position max(1,trunc m)", "ok "+hx.HexS(want))
 		}
 		if k.chars && utf8.ValidString(k.s) {
-			got := string(hx.UnHex(strings.TrimPrefix(impl, "ok ")))
+			got := unhex(strings.TrimPrefix(impl, "ok "))
 			if !utf8.ValidString(got) {
 				fail("chars mode never cuts a valid UTF-8 sequence", "valid UTF-8")
 			}
@@ -343,79 +755,483 @@ func oracle(k kase, impl string, rep *hx.Report) {
 		if impl != fmt.Sprintf("ok %d", len(units(k.s, k.chars))) {
 			fail("length counts units", fmt.Sprintf("ok %d", len(units(k.s, k.chars))))
 		}
+	case "match":
+		re, err := goRe(k.reSrc())
+		if err != nil || len(f) != 5 {
+			fail("match returns RSTART RLENGTH", "ok RSTART RLENGTH r substr")
+			return
+		}
+		loc := re.FindStringIndex(k.s)
+		if loc == nil {
+			if want := "ok 0 -1 0 -"; impl != want {
+				fail("no match: match() = RSTART = 0, RLENGTH = -1", want)
+			}
+			return
+		}
+		m := k.s[loc[0]:loc[1]]
+		if f[4] != hx.HexS(m) {
+			fail("substr(s, RSTART, RLENGTH) = leftmost-longest match", hx.HexS(m))
+		}
+		want := fmt.Sprintf("ok %d %d %d %s", len(units(k.s[:loc[0]], k.chars))+1, len(units(m, k.chars)), len(units(k.s[:loc[0]], k.chars))+1, hx.HexS(m))
+		if impl != want {
+			fail("RSTART, RLENGTH count units up to / of the leftmost-longest match; match() returns RSTART", want)
+		}
+		if k.chars && utf8.ValidString(k.s) && !utf8.ValidString(unhex(f[4])) {
+			fail("chars mode never cuts a valid UTF-8 sequence", "valid UTF-8")
+		}
+	case "sub", "gsub":
+		re, err := goRe(k.reSrc())
+		if err != nil || len(f) != 3 {
+			fail("sub returns count and result", "ok n out")
+			return
+		}
+		ms := re.FindAllStringIndex(k.s, -1) // the non-overlapping leftmost-longest matches
+		if k.op == "gsub" && k.t == "&" {
+			if want := fmt.Sprintf("ok %d %s", len(ms), hx.HexS(k.s)); impl != want {
+				fail(`gsub(r, "&", t) leaves t unchanged and returns the number of matches`, want)
+			}
+			return
+		}
+		if k.op == "sub" && len(ms) > 1 {
+			ms = ms[:1]
+		}
+		var sb strings.Builder
+		last := 0
+		for _, m := range ms {
+			sb.WriteString(k.s[last:m[0]])
+			sb.WriteString(specExpand(k.t, k.s[m[0]:m[1]]))
+			last = m[1]
+		}
+		sb.WriteString(k.s[last:])
+		name := "gsub replaces every non-overlapping leftmost-longest match; & = match, \\& = &, \\\\ = \\"
+		if k.op == "sub" {
+			name = "sub performs exactly the first of gsub's replacements; & = match, \\& = &, \\\\ = \\"
+		}
+		if want := fmt.Sprintf("ok %d %s", len(ms), hx.HexS(sb.String())); impl != want {
+			fail(name, want)
+		}
+	case "split":
+		if len(f) < 3 {
+			fail("split returns n and the array", "ok n c ...")
+			return
+		}
+		n, _ := strconv.Atoi(f[1])
+		var parts []string
+		keysOK := f[1] == f[2] && len(f) == 3+n
+		for j, kv := range f[3:] {
+			p := strings.SplitN(kv, "=", 2)
+			if len(p) != 2 || p[0] != strconv.Itoa(j+1) || p[1] == "missing" {
+				keysOK = false
+				continue
+			}
+			parts = append(parts, unhex(p[1]))
+		}
+		if !keysOK {
+			fail("split: the array has exactly the keys 1..n, n = return value", "keys 1..n")
+			return
+		}
+		reg := splitRegime(k)
+		var want []string
+		switch reg {
+		case "space":
+			want = strings.Fields(k.s)
+		case "empty-subject":
+			want = nil
+		case "empty-sep":
+			want = units(k.s, true)
+		case "single":
+			if got := strings.Join(parts, k.t); got != k.s {
+				fail("split/join round trip: pieces joined by the single-character separator give back s", hx.HexS(k.s))
+			}
+			if n != strings.Count(k.s, k.t)+1 {
+				fail("split: number of pieces = occurrences of the separator + 1", strconv.Itoa(strings.Count(k.s, k.t)+1))
+			}
+			return
+		default:
+			re, err := goRe(k.t)
+			if err != nil {
+				fail("split: separator compiles", "a regex")
+				return
+			}
+			want = re.Split(k.s, -1)
+		}
+		if strings.Join(hexAll(parts), " ") != strings.Join(hexAll(want), " ") {
+			fail("split("+reg+"): pieces = text between the leftmost-longest separator matches", strings.Join(hexAll(want), " "))
+		}
+	case "upper":
+		if want := "ok " + hx.HexS(strings.ToUpper(k.s)); subjClass(k.s) != "invalid-utf8" && impl != want {
+			fail("toupper", want)
+		}
+	case "lower":
+		if want := "ok " + hx.HexS(strings.ToLower(k.s)); subjClass(k.s) != "invalid-utf8" && impl != want {
+			fail("tolower", want)
+		}
+	case "fmt":
+		z, _, _ := truncExt(k.x)
+		want := "ok " + hx.HexS(strings.Replace(k.t, "%d", z.String(), 1))
+		if impl != want {
+			fail("sprintf with a format seen after more than maxCachedFormats others", want)
+		}
 	}
-	// ASCII: byte mode and char mode agree
+	return
+}
+
+func hexAll(xs []string) []string {
+	var o []string
+	for _, x := range xs {
+		o = append(o, hx.HexS(x))
+	}
+	return o
+}
+
+// ---- replay ----
+
+func reFromWire(s string) (*hx.Re, error) {
+	toks := strings.Split(s, ",")
+	var p func() (*hx.Re, error)
+	p = func() (*hx.Re, error) {
+		if len(toks) == 0 {
+			return nil, fmt.Errorf("truncated regex wire")
+		}
+		t := toks[0]
+		toks = toks[1:]
+		two := func(kind string) (*hx.Re, error) {
+			a, err := p()
+			if err != nil {
+				return nil, err
+			}
+			b, err := p()
+			if err != nil {
+				return nil, err
+			}
+			return &hx.Re{Kind: kind, A: a, B: b}, nil
+		}
+		one := func(kind string) (*hx.Re, error) {
+			a, err := p()
+			if err != nil {
+				return nil, err
+			}
+			return &hx.Re{Kind: kind, A: a}, nil
+		}
+		switch {
+		case t == "N":
+			return leaf("none"), nil
+		case t == "E":
+			return leaf("eps"), nil
+		case t == "a":
+			return leaf("any"), nil
+		case t == "^":
+			return leaf("bol"), nil
+		case t == "$":
+			return leaf("eol"), nil
+		case t == "C":
+			return two("cat")
+		case t == "A":
+			return two("alt")
+		case t == "S":
+			return one("star")
+		case t == "P":
+			return one("plus")
+		case t == "O":
+			return one("opt")
+		case strings.HasPrefix(t, "c"):
+			n, err := strconv.Atoi(t[1:])
+			return chr(rune(n)), err
+		case strings.HasPrefix(t, "k"):
+			ps := strings.Split(t, ":")
+			c := &hx.Re{Kind: "cls", Neg: ps[0] == "k1"}
+			for _, pr := range ps[1:] {
+				lh := strings.Split(pr, "-")
+				if len(lh) != 2 {
+					return nil, fmt.Errorf("bad range %q", pr)
+				}
+				lo, _ := strconv.Atoi(lh[0])
+				hi, _ := strconv.Atoi(lh[1])
+				c.Ranges = append(c.Ranges, [2]rune{rune(lo), rune(hi)})
+			}
+			return c, nil
+		}
+		return nil, fmt.Errorf("bad regex wire token %q", t)
+	}
+	return p()
+}
+
+func replay(path string) int {
+	raw, err := os.ReadFile(path)
+	if err != nil {
+		fmt.Println("replay:", err)
+		return 2
+	}
+	var doc struct {
+		Failure struct {
+			Class, Oracle string
+			Detail        map[string]any
+		}
+	}
+	if err := json.Unmarshal(raw, &doc); err != nil || doc.Failure.Detail == nil {
+		fmt.Println("replay: no failure.detail in", path, err)
+		return 2
+	}
+	d := doc.Failure.Detail
+	str := func(key string) string { s, _ := d[key].(string); return s }
+	bits := func(key string) float64 {
+		u, _ := strconv.ParseUint(str(key), 10, 64)
+		return math.Float64frombits(u)
+	}
+	k := kase{op: str("op"), s: string(hx.UnHex(str("s_hex"))), t: string(hx.UnHex(str("t_hex"))), x: bits("x_bits"), y: bits("y_bits")}
+	k.chars, _ = d["chars"].(bool)
+	k.lit, _ = d["regex_literal"].(bool)
+	if w, ok := d["warm"].(float64); ok {
+		k.warm = int(w)
+	}
+	if has, _ := d["has_regex"].(bool); has {
+		re, err := reFromWire(str("regex_wire"))
+		if err != nil {
+			fmt.Println("replay:", err)
+			return 2
+		}
+		k.re = re
+	}
+	if strings.HasPrefix(doc.Failure.Oracle, "ascii:") {
+		kb, kc := k, k
+		kb.chars, kc.chars = false, true
+		gb, gc := runOne(kb), runOne(kc)
+		fmt.Printf("replay C10 (mode agreement): op=%s s=%q t=%q regex=%q x=%v y=%v\n  byte mode %s\n  char mode %s\n", k.op, k.s, k.t, k.reSrc(), k.x, k.y, gb, gc)
+		if gb != gc {
+			fmt.Println("  FAILS    ascii: byte mode = char mode")
+			return 1
+		}
+		return 0
+	}
+	got := runOne(k)
+	fs := oracle(k, got)
+	fmt.Printf("replay C10: op=%s chars=%v s=%q t=%q regex=%q literal=%v x=%v y=%v after %d other regexes\n  got      %s\n",
+		k.op, k.chars, k.s, k.t, k.reSrc(), k.lit, k.x, k.y, k.warm, got)
+	for _, f := range fs {
+		fmt.Printf("  FAILS    %s\n  expected %s\n", f.oracle, f.want)
+	}
+	if len(fs) > 0 {
+		return 1
+	}
+	fmt.Println("  no oracle fails on this tree")
+	return 0
+}
+
+// ---- sessions ----
+
+// assignWarm records, for every case of a session that starts with `warm` throw-away regexes,
+// how many distinct regexes/formats the interpreter has compiled before the case (capped: past
+// maxCachedRegexes the number no longer matters).
+func assignWarm(ks []kase, warm int) {
+	seen := map[string]bool{}
+	for i := range ks {
+		w := warm + len(seen)
+		if w > 150 {
+			w = 150
+		}
+		ks[i].warm = w
+		if d := ks[i].dynRegex(); d != "" {
+			seen[d] = true
+		}
+	}
 }
 
 func main() {
 	o := hx.ParseFlags()
+	if o.Replay != "" {
+		os.Exit(replay(o.Replay))
+	}
 	rep := hx.NewReport("C10", o.Seed, o.Tier)
-	rep.Rule = "systematic: 16 pool strings x 35 hostile numbers x 8 lengths x {byte,char} mode, plus random strings over a mixed ASCII/multi-byte/invalid-UTF-8 alphabet with numeric arguments from hostile set / small ints / quarter fractions / random bit patterns; distinct = distinct model request line; non-trivial = non-empty subject string or op int"
+	rep.Rule = "systematic: 37 pool regexes (alternations whose first alternative is a prefix of a later one, empty-matching, anchored, classes, multi-byte) x 29 subjects (ASCII, multi-byte, invalid UTF-8, empty) x match{byte,char}/gsub(&)/gsub/sub/split, 14 separators x subjects, 15 replacement strings over {&, \\\\, \\&, text}; 16 pool strings x 35 hostile numbers x 8 lengths x {byte,char} for substr; plus random cases (regex ASTs from hx.RandRe). Sessions: (A) fresh interpreter, each regex case evaluated twice (second from the regex cache); (B) everything in one interpreter after 150 other distinct regexes and formats (cache full); (C) everything in one interpreter from an empty cache. distinct = distinct model request line; non-trivial = non-empty subject string or op int"
 	r := hx.NewRand(o.Seed)
-	ks := genCases(o, r)
-	impl := make([]string, len(ks))
-	for _, c := range []bool{false, true} {
-		res, err := runImpl(ks, c)
-		if err != nil {
-			// a batch failed (panic or run-time error): evaluate one by one
-			for i, k := range ks {
+	all := genCases(o, r)
+
+	type run struct {
+		k       kase
+		impl    string
+		session string
+	}
+	var runs []run
+	exec := func(name string, ks []kase, warm, times int) {
+		assignWarm(ks, warm)
+		for _, c := range []bool{false, true} {
+			var sub []kase
+			for _, k := range ks {
 				if k.chars == c {
-					impl[i] = runOne(k)
+					sub = append(sub, k)
 				}
 			}
-			continue
-		}
-		for i, k := range ks {
-			if k.chars == c {
-				impl[i] = res[i]
+			if len(sub) == 0 {
+				continue
+			}
+			res, err := runSession(sub, c, warm, times)
+			for j, k := range sub {
+				var impl string
+				if err != nil {
+					impl = runOne(k) // a batch failed (panic or run-time error): evaluate one by one
+				} else {
+					impl = res[j][0]
+					for _, other := range res[j][1:] {
+						if other != impl {
+							impl = "unstable: first evaluation " + impl + " / later evaluation " + other
+						}
+					}
+				}
+				runs = append(runs, run{k, impl, name})
 			}
 		}
 	}
-	lines := make([]string, len(ks))
-	for i, k := range ks {
-		lines[i] = k.line()
+	// (A) cache-hit path: few regexes, each case twice in a row
+	var sessA []kase
+	for i, k := range all {
+		if k.re != nil && len(sessA) < 90 && i%11 == 0 {
+			sessA = append(sessA, k)
+		}
 	}
-	model, err := hx.ModelEval(o.ModelRun, lines)
+	exec("A:twice-from-empty-cache", sessA, 0, 2)
+	// (B) cache-full path from the first case on
+	var sessB []kase
+	for i, k := range all {
+		if k.re != nil || k.op == "fmt" {
+			if i%2 == 0 || hasAlt(k.re) {
+				sessB = append(sessB, k)
+			}
+		}
+	}
+	exec("B:after-150-other-regexes", sessB, 150, 1)
+	// (C) everything, one interpreter per mode
+	exec("C:long-session", append([]kase(nil), all...), 0, 1)
+
+	// model answers
+	var lines []string
+	var lineOf []int
+	for i, ru := range runs {
+		if l := ru.k.line(); l != "" {
+			lines = append(lines, l)
+			lineOf = append(lineOf, i)
+		}
+	}
+	model := make([]string, len(runs))
+	ans, err := hx.ModelEval(o.ModelRun, lines)
 	if err != nil {
 		rep.HarnessError("%v", err)
+	} else {
+		for j, i := range lineOf {
+			model[i] = ans[j]
+		}
 	}
-	for i, k := range ks {
-		rep.CorrEvals++
-		rep.Count("op:" + classify(k))
-		if k.s != "" || k.op == "int" {
-			rep.Distinct(lines[i])
+	// trusted base: the executable engine Lib/Regex must agree with Go's regexp+Longest (both
+	// evaluated here, without goawk) on a case before that case can tie the model to the
+	// implementation; a disagreement is counted, never reported as a violation of goawk
+	engSrc := func(k kase) string {
+		if k.re == nil {
+			return ""
 		}
-		if i%997 == 0 {
-			rep.Sample(map[string]string{"request": lines[i], "impl": impl[i]})
+		if k.op == "split" {
+			if splitRegime(k) != "regex" {
+				return ""
+			}
+			return k.t
 		}
-		if model != nil {
-			if model[i] == "unmod" {
+		return k.reSrc()
+	}
+	engBad := map[string]bool{}
+	{
+		var el, ekey, ewant []string
+		seen := map[string]bool{}
+		for _, ru := range runs {
+			src := engSrc(ru.k)
+			key := src + "\x00" + ru.k.s
+			if src == "" || seen[key] {
+				continue
+			}
+			seen[key] = true
+			re, err := goRe(src)
+			if err != nil {
+				engBad[key] = true
+				continue
+			}
+			var sb strings.Builder
+			for j, m := range re.FindAllStringIndex(ru.k.s, -1) {
+				if j > 0 {
+					sb.WriteString(" ")
+				}
+				fmt.Fprintf(&sb, "%d,%d", m[0], m[1])
+			}
+			sb.WriteString(";")
+			el = append(el, "findall "+ru.k.reWire()+" "+hx.HexS(ru.k.s))
+			ekey = append(ekey, key)
+			ewant = append(ewant, sb.String())
+		}
+		got, err := hx.ModelEval(o.ModelRun, el)
+		if err != nil {
+			rep.HarnessError("%v", err)
+		}
+		for j := range got {
+			if got[j] != ewant[j] {
+				engBad[ekey[j]] = true
+				rep.Count("trusted-base:Lib/Regex-disagrees-with-Go-regexp")
+			}
+		}
+		rep.Count("trusted-base:engine-self-check-cases")
+		rep.Hist["trusted-base:engine-self-check-cases"] = len(el)
+	}
+	engineOK := func(k kase) bool {
+		src := engSrc(k)
+		return src == "" || !engBad[src+"\x00"+k.s]
+	}
+	for i, ru := range runs {
+		k := ru.k
+		cl := classify(k)
+		rep.Count("op:" + cl)
+		rep.Count("session:" + ru.session)
+		if model[i] != "" {
+			rep.CorrEvals++
+			if k.s != "" || k.op == "int" {
+				rep.Distinct(lines0(k))
+			}
+			if i%1499 == 0 {
+				rep.Sample(map[string]string{"request": k.line(), "impl": ru.impl, "session": ru.session})
+			}
+			switch {
+			case model[i] == "unmod" || !engineOK(k):
 				rep.Unmodelled++
-			} else if model[i] != impl[i] {
-				rep.Mismatch(hx.Mismatch{Class: classify(k), Input: lines[i], Impl: impl[i], Model: model[i]})
+			case model[i] != corrView(k, ru.impl):
+				rep.Mismatch(hx.Mismatch{Class: cl, Input: k.line(), Impl: corrView(k, ru.impl), Model: model[i],
+					Note: fmt.Sprintf("session %s, %d regexes compiled before; regex %q", ru.session, k.warm, k.reSrc())})
 			}
 		}
 		rep.SearchEvals++
-		oracle(k, impl[i], rep)
+		for _, f := range oracle(k, ru.impl) {
+			rep.Fail(hx.Failure{Class: cl, Oracle: f.oracle, Detail: detail(k, f.want, ru.impl)})
+		}
 	}
 	// ASCII agreement of the two modes (metamorphic, implementation only)
-	for i := 0; i < len(ks); i++ {
-		k := ks[i]
-		ascii := true
-		for j := 0; j < len(k.s)+len(k.t); j++ {
-			if (k.s + k.t)[j] >= 0x80 {
-				ascii = false
-			}
+	n := 0
+	for _, ru := range runs {
+		k := ru.k
+		if ru.session[0] != 'C' || k.chars || subjClass(k.s+k.t) == "utf8" || subjClass(k.s+k.t) == "invalid-utf8" {
+			continue
 		}
-		if ascii && !k.chars && k.op != "int" && i%7 == 0 {
-			k2 := k
-			k2.chars = true
-			rep.SearchEvals++
-			if got := runOne(k2); got != impl[i] {
-				rep.Fail(hx.Failure{Class: classify(k2), Oracle: "ascii: byte mode = char mode", Detail: map[string]any{
-					"model_line": k2.line(), "byte_mode": impl[i], "char_mode": got}})
-			}
+		switch k.op {
+		case "substr", "substrlen", "index", "length", "match":
+		default:
+			continue
+		}
+		n++
+		if n%5 != 0 {
+			continue
+		}
+		k2 := k
+		k2.chars = true
+		rep.SearchEvals++
+		if got := runOne(k2); got != ru.impl {
+			d := detail(k2, ru.impl, got)
+			d["byte_mode"], d["char_mode"] = ru.impl, got
+			rep.Fail(hx.Failure{Class: classify(k2), Oracle: "ascii: byte mode = char mode", Detail: d})
 		}
 	}
 	rep.Write(o.Out)
 }
+
+func lines0(k kase) string { return k.line() }
